@@ -381,6 +381,10 @@ func c12Pipeline(c *core.Ctx, i int64, r *rand.Rand) {
 		c.Nontrivial(core.Hash("p", src, chunk))
 	}
 	c.SetAdd("interleaving_signatures", fmt.Sprintf("%016x", core.Hash(pt.Signature())))
+	if c.WantSample() && overlapped(ev) {
+		c.Sample(map[string]any{"workload": "pipeline", "input_kind": kind, "input_bytes": len(src), "bytes_per_read": chunk, "diagnostics": strings.Count(lg.String(), "\n"),
+			"interleaving_of_hook_points": core.Trunc(pt.Signature(), 300)})
+	}
 }
 
 func c12Callers(c *core.Ctx, i int64, r *rand.Rand) {
